@@ -1,5 +1,4 @@
-import PPLV.PolyFull.ProofsStatus3
-import PPLV.PolyStatus.ProofsB
+import PPLV.PolyFull.ProofsStatus4o
 
 /-!
 # Integration stage — `full_matches_status_model`
@@ -11,49 +10,18 @@ status-protocol model, every full state `x` and abstract state `s` with `Sim x s
 computes.  `…_status_legal`: when `s` itself satisfies the invariant of the status protocol and its ghost
 Booleans are the ones the full model computes, the status word the full model leaves is legal
 (`statusOK`, `polyOK` — by `C01.status_inv`'s per-function lemmas).
+
+Files: `ProofsStatus1-3` (helpers, `_sim` form), `4` (`needGens`, ghost conditions satisfiable), `4b` (`Sim.legalB`:
+the legality table of the status-protocol model IS `statusLegalB`; `f_status_legal` for every helper), `4c`-`4i`
+(observers, `refine_no_check`/`add_constraint`, `add_generator`, `unconstrain`, `affine_image`,
+`affine_preimage`), `4j`-`4k` (`intersection_assign`, `poly_hull_assign`), `4l`-`4o` (`is_included_in`,
+`quick_equivalence_test`, `contains`, `operator==` — in `_sim` form: `isIncludedIn_sim`, `qet_sim`,
+`contains_sim`, `equals_decided`, `equals_undecided`).  Summary theorems here: `full_matches_status_model`
+(helpers), `full_matches_status_model_public` (unary public methods), `full_matches_status_model_binary`.
 -/
 namespace PPLV.PolyFull
 open PPLV.PolyOps
 open PPLV.PolyStatus (PState Gh)
-
-/-! ## the ghost conditions are satisfiable by a change of ghost Booleans only -/
-
-theorem ugGhost_ex (x : FPoly) (s : PState) : ∃ (g : Gh) (s' : PState), SameStored s s' ∧ UgGhost x g s' :=
-  ⟨{ srcS := x.ugOut.source.sorted }, s.set .emp x.ugOut.empty, SameStored.set_ghost s .emp _ rfl,
-    ⟨by simp, fun _ => rfl⟩⟩
-
-theorem ppcGhost_ex (x : FPoly) (s : PState) : ∃ (g : Gh) (s' : PState), SameStored s s' ∧ PpcGhost x.ppcPrep g s' :=
-  ⟨x.ppcGh, x.ppcSt s, ppcSt_sameStored x s, ppcGhost_canon x s⟩
-
-theorem ppgGhost_ex (x : FPoly) (s : PState) : ∃ (g : Gh) (s' : PState), SameStored s s' ∧ PpgGhost x.ppgPrep g s' :=
-  ⟨x.ppgGh, x.ppgSt s, ppgSt_sameStored x s, ppgGhost_canon x s⟩
-
-theorem ppGhost_ex (x : FPoly) (s : PState) : ∃ (g : Gh) (s' : PState), SameStored s s' ∧ PpGhost x g s' := by
-  rcases (Bool.eq_false_or_eq_true x.p.st.cPend).symm with c | c
-  · obtain ⟨g, s', h1, h2⟩ := ppgGhost_ex x s
-    exact ⟨g, s', h1, ⟨fun hc => (by rw [c] at hc; cases hc), fun _ => h2⟩⟩
-  · obtain ⟨g, s', h1, h2⟩ := ppcGhost_ex x s
-    exact ⟨g, s', h1, ⟨fun _ => h2, fun hc => (by rw [c] at hc; cases hc)⟩⟩
-
-theorem minGhost_ex (x : FPoly) (s : PState) : ∃ (g : Gh) (s' : PState), SameStored s s' ∧ MinGhost x g s' := by
-  rcases (Bool.eq_false_or_eq_true x.p.st.somethingPending).symm with c | c
-  · rcases (Bool.eq_false_or_eq_true x.p.st.cUp).symm with e | e
-    · exact ⟨{ srcS := x.ucOut.source.sorted }, s, SameStored.refl s,
-        ⟨fun _ _ hc => (by rw [c] at hc; cases hc), fun _ _ _ _ he => (by rw [e] at he; cases he), fun _ _ _ _ _ => rfl⟩⟩
-    · obtain ⟨g, s', h1, h2⟩ := ugGhost_ex x s
-      exact ⟨g, s', h1,
-        ⟨fun _ _ hc => (by rw [c] at hc; cases hc), fun _ _ _ _ _ => h2, fun _ _ _ _ he => (by rw [e] at he; cases he)⟩⟩
-  · obtain ⟨g, s', h1, h2⟩ := ppGhost_ex x s
-    exact ⟨g, s', h1,
-      ⟨fun _ _ _ => h2, fun _ _ hc => (by rw [c] at hc; cases hc), fun _ _ hc => (by rw [c] at hc; cases hc)⟩⟩
-
-theorem needConsGhost_ex (x : FPoly) (s : PState) :
-    ∃ (g : Gh) (s' : PState), SameStored s s' ∧ NeedConsGhost x g s' := by
-  rcases (Bool.eq_false_or_eq_true x.p.st.gPend).symm with c | c
-  · exact ⟨{ srcS := x.ucOut.source.sorted }, s, SameStored.refl s,
-      ⟨fun hc => (by rw [c] at hc; cases hc), fun _ _ => rfl⟩⟩
-  · obtain ⟨g, s', h1, h2⟩ := ppgGhost_ex x s
-    exact ⟨g, s', h1, ⟨fun _ => h2, fun hc => (by rw [c] at hc; cases hc)⟩⟩
 
 /-! ## `f_matches` -/
 
@@ -142,41 +110,31 @@ theorem needCons_matches (x : FPoly) (s : PState) (h : Sim x s) :
   obtain ⟨g, s', k1, k2⟩ := needConsGhost_ex x s
   exact ⟨g, s', k1, h.of_sameStored k1, needCons_sim x s' g (h.of_sameStored k1) k2⟩
 
-/-! ## legality of the status word the full model leaves -/
+/-! ## legality of the status word the full model leaves
 
-/-- `Sim` transports the two legality predicates that only read the stored part -/
-theorem Sim.legal {x : FPoly} {s : PState} (_h : Sim x s) (hi : PPLV.PolyStatus.Inv s) :
-    s.statusOK = true ∧ s.polyOK = true := by
-  simp only [PPLV.PolyStatus.Inv, PState.invB, Bool.and_eq_true] at hi
-  exact ⟨hi.1.1, hi.1.2⟩
+`ProofsStatus4b.lean`: `Sim.legalB` (the two legality tables coincide), `LegalOut`, and `f_status_legal`
+for every helper.  The first three theorems of stage 1 in their original form: -/
 
-/-- `minimize()`: if the abstract state satisfies the protocol invariant and its ghost Booleans are the ones
-    the full model computes, the status word of the full model's result is legal -/
 theorem minimize_status_legal (x : FPoly) (s : PState) (g : Gh) (h : Sim x s) (hi : PPLV.PolyStatus.Inv s)
     (hg : MinGhost x g s) :
     (PPLV.PolyStatus.minimize g s).2.statusOK = true ∧ (PPLV.PolyStatus.minimize g s).2.polyOK = true
     ∧ (PPLV.PolyStatus.minimize g s).1 = x.minimize.1 ∧ Sim x.minimize.2 (PPLV.PolyStatus.minimize g s).2 := by
-  obtain ⟨m1, m2⟩ := minimize_sim x s g h hg
-  obtain ⟨l1, l2⟩ := m2.legal (PPLV.PolyStatus.minimize_spec g s hi).1
-  exact ⟨l1, l2, m1, m2⟩
+  obtain ⟨l, m1⟩ := minimize_status_legal' x s g h hi hg
+  exact ⟨(Inv.legal l.inv).1, (Inv.legal l.inv).2, m1, l.sim⟩
 
 theorem isEmpty_status_legal (x : FPoly) (s : PState) (g : Gh) (h : Sim x s) (hi : PPLV.PolyStatus.Inv s)
     (hg : IsEmptyGhost x g s) :
     (PPLV.PolyStatus.isEmpty g s).2.statusOK = true ∧ (PPLV.PolyStatus.isEmpty g s).2.polyOK = true
     ∧ (PPLV.PolyStatus.isEmpty g s).1 = x.isEmpty.1 ∧ Sim x.isEmpty.2 (PPLV.PolyStatus.isEmpty g s).2 := by
-  obtain ⟨m1, m2⟩ := isEmpty_sim x s g h hg
-  obtain ⟨l1, l2⟩ := m2.legal (PPLV.PolyStatus.isEmpty_spec g s hi).1
-  exact ⟨l1, l2, m1, m2⟩
+  obtain ⟨l, m1⟩ := isEmpty_status_legal' x s g h hi hg
+  exact ⟨(Inv.legal l.inv).1, (Inv.legal l.inv).2, m1, l.sim⟩
 
 theorem needCons_status_legal (x : FPoly) (s : PState) (g : Gh) (h : Sim x s) (hi : PPLV.PolyStatus.Inv s)
     (he : x.p.st.empty = false) (hd : x.p.dim ≠ 0) (hg : NeedConsGhost x g s) :
     (PPLV.PolyStatus.needCons g s).statusOK = true ∧ (PPLV.PolyStatus.needCons g s).polyOK = true
     ∧ Sim x.needCons (PPLV.PolyStatus.needCons g s) := by
-  have m2 := needCons_sim x s g h hg
-  have he' : s.b .em = false := by rw [← he]; exact h.1
-  have hd' : s.dim ≠ 0 := by rw [h.2.2.2.2.2.2.2.2.2.1]; exact hd
-  obtain ⟨l1, l2⟩ := m2.legal (PPLV.PolyStatus.needCons_spec g s hi he' hd').1
-  exact ⟨l1, l2, m2⟩
+  have l := needCons_status_legal' x s g h hi he hd hg
+  exact ⟨(Inv.legal l.inv).1, (Inv.legal l.inv).2, l.sim⟩
 
 /-! ## summary -/
 
@@ -186,7 +144,7 @@ inductive Helper
   | obtainSortedConstraintsWithSatC | obtainSortedGeneratorsWithSatG
   | updateConstraints | updateGenerators | processPendingConstraints | processPendingGenerators
   | removePendingToObtainConstraints | removePendingToObtainGenerators | processPending | minimize | isEmpty
-  | needCons
+  | needCons | needGens
 deriving DecidableEq, Repr
 
 /-- the full-model helper: "Boolean answer" (`true` where there is none) and the new state -/
@@ -203,6 +161,7 @@ def Helper.full : Helper → FPoly → Bool × FPoly
   | .removePendingToObtainGenerators, x => x.removePendingToObtainGenerators
   | .processPending, x => x.processPending | .minimize, x => x.minimize | .isEmpty, x => x.isEmpty
   | .needCons, x => (true, x.needCons)
+  | .needGens, x => x.needGens
 
 /-- the status-protocol helper -/
 def Helper.abs : Helper → Gh → PState → Bool × PState
@@ -220,12 +179,14 @@ def Helper.abs : Helper → Gh → PState → Bool × PState
   | .processPending, g, s => PPLV.PolyStatus.processPending g s
   | .minimize, g, s => PPLV.PolyStatus.minimize g s | .isEmpty, g, s => PPLV.PolyStatus.isEmpty g s
   | .needCons, g, s => (true, PPLV.PolyStatus.needCons g s)
+  | .needGens, g, s => PPLV.PolyStatus.needGens g s
 
 /-- **the status word (and `sorted` flags, dimension, topology) the full model leaves is one of the outcomes
     the status-protocol model allows**, for every private helper of the list, from every pair of states
     whose stored parts agree; the ghost data are chosen from what the full model computes and `s'` differs
     from `s` in ghost Booleans only. -/
-theorem full_matches_status_model (f : Helper) (x : FPoly) (s : PState) (h : Sim x s) :
+theorem full_matches_status_model (f : Helper) (x : FPoly) (s : PState) (h : Sim x s)
+    (hl : f = .needGens → x.p.st.cPend = true → x.p.st.gUp = true) :
     ∃ (g : Gh) (s' : PState), SameStored s s' ∧ Sim x s' ∧
       (f.abs g s').1 = (f.full x).1 ∧ Sim (f.full x).2 (f.abs g s').2 := by
   cases f
@@ -249,5 +210,213 @@ theorem full_matches_status_model (f : Helper) (x : FPoly) (s : PState) (h : Sim
   case isEmpty => exact isEmpty_matches x s h
   case needCons =>
     obtain ⟨g, s', a, b, c⟩ := needCons_matches x s h; exact ⟨g, s', a, b, rfl, c⟩
+  case needGens => exact needGens_matches x s h (hl rfl)
+
+/-! ## public methods -/
+
+/-- two ghost inputs that agree on what the engine calls read -/
+def GhSame (g g' : Gh) : Prop := g'.dup = g.dup ∧ g'.srcS = g.srcS ∧ g'.dstS = g.dstS
+
+theorem PpcGhost.congr {x : FPoly} {g g' : Gh} {s : PState} (h : PpcGhost x g s) (e : GhSame g g') :
+    PpcGhost x g' s :=
+  ⟨by rw [e.1]; exact h.pend, h.emp, by rw [e.2.1]; exact h.srcS, by rw [e.2.2]; exact h.dstS⟩
+theorem PpgGhost.congr {x : FPoly} {g g' : Gh} {s : PState} (h : PpgGhost x g s) (e : GhSame g g') :
+    PpgGhost x g' s :=
+  ⟨by rw [e.1]; exact h.pend, by rw [e.2.1]; exact h.srcS, by rw [e.2.2]; exact h.dstS⟩
+theorem UgGhost.congr {x : FPoly} {g g' : Gh} {s : PState} (h : UgGhost x g s) (e : GhSame g g') :
+    UgGhost x g' s := ⟨h.emp, by rw [e.2.1]; exact h.srcS⟩
+theorem UcGhost.congr {x : FPoly} {g g' : Gh} (h : UcGhost x g) (e : GhSame g g') : UcGhost x g' := by
+  unfold UcGhost at h ⊢; rw [e.2.1]; exact h
+theorem PpGhost.congr {x : FPoly} {g g' : Gh} {s : PState} (h : PpGhost x g s) (e : GhSame g g') :
+    PpGhost x g' s := ⟨fun hc => (h.ppc hc).congr e, fun hc => (h.ppg hc).congr e⟩
+theorem MinGhost.congr {x : FPoly} {g g' : Gh} {s : PState} (h : MinGhost x g s) (e : GhSame g g') :
+    MinGhost x g' s :=
+  ⟨fun a b c => (h.pend a b c).congr e, fun a b c d f => (h.ug a b c d f).congr e,
+   fun a b c d f => (h.uc a b c d f).congr e⟩
+theorem NeedConsGhost.congr {x : FPoly} {g g' : Gh} {s : PState} (h : NeedConsGhost x g s) (e : GhSame g g') :
+    NeedConsGhost x g' s := ⟨fun hp => (h.ppg hp).congr e, fun a b => (h.uc a b).congr e⟩
+theorem NeedGensGhost.congr {x : FPoly} {g g' : Gh} {s : PState} (h : NeedGensGhost x g s) (e : GhSame g g') :
+    NeedGensGhost x g' s := ⟨fun hp => (h.ppc hp).congr e, fun a b => (h.ug a b).congr e⟩
+
+theorem NeedConsGhost.with_keep {x : FPoly} {g : Gh} {s : PState} (h : NeedConsGhost x g s) (v : Bool) :
+    NeedConsGhost x { g with keep := v } s := h.congr ⟨rfl, rfl, rfl⟩
+theorem NeedGensGhost.with_keep {x : FPoly} {g : Gh} {s : PState} (h : NeedGensGhost x g s) (v : Bool) :
+    NeedGensGhost x { g with keep := v } s := h.congr ⟨rfl, rfl, rfl⟩
+
+/-- ghost data for the preparation of `affine_image`: pending constraints processed, or `minimize()` -/
+theorem aiPrep_ex (x : FPoly) (s : PState) :
+    ∃ (g : Gh) (s' : PState), SameStored s s' ∧ (x.p.st.cPend = true → PpcGhost x.ppcPrep g s')
+      ∧ (x.p.st.somethingPending = false → MinGhost x g s') := by
+  rcases (Bool.eq_false_or_eq_true x.p.st.cPend).symm with c | c
+  · obtain ⟨g, s', k1, k2⟩ := minGhost_ex x s
+    exact ⟨g, s', k1, fun hc => (by rw [c] at hc; cases hc), fun _ => k2⟩
+  · obtain ⟨g, s', k1, k2⟩ := ppcGhost_ex x s
+    exact ⟨g, s', k1, fun _ => k2, fun hs => (by simp [Status.somethingPending, c] at hs)⟩
+
+theorem apPrep_ex (x : FPoly) (s : PState) :
+    ∃ (g : Gh) (s' : PState), SameStored s s' ∧ (x.p.st.gPend = true → PpgGhost x.ppgPrep g s')
+      ∧ (x.p.st.somethingPending = false → MinGhost x g s') := by
+  rcases (Bool.eq_false_or_eq_true x.p.st.gPend).symm with c | c
+  · obtain ⟨g, s', k1, k2⟩ := minGhost_ex x s
+    exact ⟨g, s', k1, fun hc => (by rw [c] at hc; cases hc), fun _ => k2⟩
+  · obtain ⟨g, s', k1, k2⟩ := ppgGhost_ex x s
+    exact ⟨g, s', k1, fun _ => k2, fun hs => (by simp [Status.somethingPending, c] at hs)⟩
+
+/-- the public methods covered, with their arguments -/
+inductive PubCall
+  | constraints | generators | minimizedConstraints | minimizedGenerators
+  | refineNoCheck (c : Row) | addConstraint (c : Row) | addGenerator (k : FPoly.GKindA) (g : Row)
+  | unconstrain (vars : List Nat)
+  | affineImage (v : Nat) (e : PPLV.Lin.LinExpr) (den : Int) | affinePreimage (v : Nat) (e : PPLV.Lin.LinExpr) (den : Int)
+
+/-- the full-model method -/
+def PubCall.full : PubCall → FPoly → FPoly
+  | .constraints, x => x.constraints | .generators, x => x.generators
+  | .minimizedConstraints, x => x.minimizedConstraints | .minimizedGenerators, x => x.minimizedGenerators
+  | .refineNoCheck c, x => x.refineNoCheck c | .addConstraint c, x => x.addConstraint c
+  | .addGenerator k g, x => x.addGenerator k g
+  | .unconstrain vars, x => x.unconstrain vars
+  | .affineImage v e den, x => x.affineImage v e den | .affinePreimage v e den, x => x.affinePreimage v e den
+
+/-- the status-protocol method as a list of steps (`Facts` of the argument computed from the call) -/
+def PubCall.steps : PubCall → FPoly → List PPLV.PolyStatus.Step
+  | .constraints, _ => [PPLV.PolyStatus.constraints] | .generators, _ => [PPLV.PolyStatus.generators]
+  | .minimizedConstraints, _ => PPLV.PolyStatus.minimizedConstraintsSteps
+  | .minimizedGenerators, _ => PPLV.PolyStatus.minimizedGeneratorsSteps
+  | .refineNoCheck c, x => [fun g s => PPLV.PolyStatus.refineNoCheck g (FPoly.rowInconsistent x.p.nnc c) s]
+  | .addConstraint c, x =>
+      [fun g s => PPLV.PolyStatus.addConstraint g { incons := FPoly.rowInconsistent x.p.nnc c } s]
+  | .addGenerator _ _, _ => [PPLV.PolyStatus.addGenerator]
+  | .unconstrain _, _ => [PPLV.PolyStatus.unconstrain]
+  | .affineImage v e _, _ => [fun g s => PPLV.PolyStatus.affineImage g { inv := e.coeffs.getD v 0 != 0 } s]
+  | .affinePreimage v e _, _ => [fun g s => PPLV.PolyStatus.affinePreimage g { inv := e.coeffs.getD v 0 != 0 } s]
+
+/-- the data facts about the full state each comparison needs -/
+def PubCall.pre : PubCall → FPoly → Prop
+  | .constraints, x => x.p.st.empty = true → x.p.cs.rows.isEmpty = false → x.p.cs.sorted = true
+  | .generators, x => (x.p.st.empty = true → x.p.gs.sorted = true) ∧ (x.p.st.cPend = true → x.p.st.gUp = true)
+  | .minimizedConstraints, x => x.p.nnc = false ∧ statusLegalB x.p.st x.p.dim = true
+      ∧ (x.p.st.empty = true → x.p.cs.rows.isEmpty = false → x.p.cs.sorted = true)
+  | .minimizedGenerators, x => x.p.nnc = false ∧ statusLegalB x.p.st x.p.dim = true
+      ∧ (x.p.st.empty = true → x.p.gs.sorted = true)
+  | .refineNoCheck _, x => x.p.st.empty = false
+  | .addConstraint _, _ => True
+  | .addGenerator _ _, x => (x.p.st.empty = true → x.p.gs.sorted = true) ∧ (x.p.st.cPend = true → x.p.st.gUp = true)
+  | .unconstrain vars, x => vars.isEmpty = false ∧ x.p.dim ≠ 0 ∧ (x.p.st.cPend = true → x.p.st.gUp = true)
+  | .affineImage _ _ _, x => x.p.dim ≠ 0 ∧ statusLegalB x.p.st x.p.dim = true
+  | .affinePreimage _ _ _, x => x.p.dim ≠ 0 ∧ statusLegalB x.p.st x.p.dim = true
+
+theorem refineNoCheck_matches (x : FPoly) (c : Row) (s : PState) (h : Sim x s) (he : x.p.st.empty = false) :
+    ∃ (g : Gh) (s' : PState), SameStored s s' ∧ Sim x s' ∧
+      Sim (x.refineNoCheck c) (PPLV.PolyStatus.refineNoCheck g (FPoly.rowInconsistent x.p.nnc c) s') := by
+  obtain ⟨g, s', k1, k2⟩ := needConsGhost_ex x s
+  exact ⟨{ g with keep := (x.refineNoCheck c).p.cs.sorted }, s', k1, h.of_sameStored k1,
+    refineNoCheck_sim x c s' _ (h.of_sameStored k1) he ⟨fun _ => k2.with_keep _, rfl⟩⟩
+
+/-- **public methods**: the stored state the full-model method leaves is an outcome of the status-protocol
+    method, run with ghost inputs computed by the full model, from an abstract state differing from `s`
+    in ghost Booleans only. -/
+theorem full_matches_status_model_public (c : PubCall) (x : FPoly) (s : PState) (h : Sim x s) (hp : c.pre x) :
+    ∃ (gs : List Gh) (s' : PState), SameStored s s' ∧ Sim x s' ∧
+      Sim (c.full x) (PPLV.PolyStatus.runSteps (c.steps x) gs s') := by
+  cases c
+  case constraints =>
+    obtain ⟨g, s', k1, k2⟩ := needConsGhost_ex x s
+    exact ⟨[g], s', k1, h.of_sameStored k1, constraints_sim x s' g (h.of_sameStored k1) hp (fun _ _ => k2)⟩
+  case generators =>
+    obtain ⟨g, s', k1, k2⟩ := needGensGhost_ex x s
+    exact ⟨[g], s', k1, h.of_sameStored k1,
+      generators_sim x s' g (h.of_sameStored k1) hp.1 hp.2 (fun _ _ => k2)⟩
+  case minimizedConstraints =>
+    obtain ⟨g, s', k1, k2⟩ := minGhost_ex x s
+    exact ⟨[g, {}], s', k1, h.of_sameStored k1,
+      minimizedConstraints_sim x s' g {} (h.of_sameStored k1) hp.1 hp.2.1 hp.2.2 k2⟩
+  case minimizedGenerators =>
+    obtain ⟨g, s', k1, k2⟩ := minGhost_ex x s
+    exact ⟨[g, {}], s', k1, h.of_sameStored k1,
+      minimizedGenerators_sim x s' g {} (h.of_sameStored k1) hp.1 hp.2.1 hp.2.2 k2⟩
+  case refineNoCheck c =>
+    obtain ⟨g, s', k1, k2, k3⟩ := refineNoCheck_matches x c s h hp
+    exact ⟨[g], s', k1, k2, k3⟩
+  case addConstraint c =>
+    obtain ⟨g, s', k1, k2⟩ := needConsGhost_ex x s
+    refine ⟨[{ g with keep := (x.refineNoCheck c).p.cs.sorted }], s', k1, h.of_sameStored k1, ?_⟩
+    exact addConstraint_sim x c s' _ { incons := FPoly.rowInconsistent x.p.nnc c } (h.of_sameStored k1) rfl rfl
+      (fun _ => ⟨fun _ => k2.with_keep _, rfl⟩)
+  case addGenerator k gr =>
+    obtain ⟨g, s', k1, k2⟩ := needGensGhost_ex x s
+    exact ⟨[{ g with keep := (x.addGenerator k gr).p.gs.sorted }], s', k1, h.of_sameStored k1,
+      addGenerator_sim x k gr s' _ (h.of_sameStored k1) hp.1 hp.2 ⟨fun _ _ => k2.with_keep _, rfl⟩⟩
+  case unconstrain vars =>
+    obtain ⟨g, s', k1, k2⟩ := needGensGhost_ex x s
+    exact ⟨[{ g with keep := (x.unconstrain vars).p.gs.sorted }], s', k1, h.of_sameStored k1,
+      unconstrain_sim x vars s' _ (h.of_sameStored k1) hp.1 hp.2.1 hp.2.2 ⟨fun _ => k2.with_keep _, rfl⟩⟩
+  case affineImage v e den =>
+    obtain ⟨g, s', k1, k2, k3⟩ := aiPrep_ex x s
+    refine ⟨[{ g with keep := (x.affineImage v e den).p.gs.sorted, aux := (x.affineImage v e den).p.cs.sorted }],
+      s', k1, h.of_sameStored k1, ?_⟩
+    exact affineImage_sim x v e den s' _ { inv := e.coeffs.getD v 0 != 0 } (h.of_sameStored k1) hp.1 rfl hp.2
+      ⟨fun _ _ hc => (k2 hc).congr ⟨rfl, rfl, rfl⟩, fun _ hs _ => (k3 hs).congr ⟨rfl, rfl, rfl⟩, rfl, rfl⟩
+  case affinePreimage v e den =>
+    obtain ⟨g, s', k1, k2, k3⟩ := apPrep_ex x s
+    rcases (Bool.eq_false_or_eq_true (e.coeffs.getD v 0 != 0)).symm with i | i
+    · refine ⟨[{ g with keep := (x.affinePreimage v e den).p.cs.sorted }], s', k1, h.of_sameStored k1, ?_⟩
+      exact affinePreimage_sim x v e den s' _ { inv := e.coeffs.getD v 0 != 0 } (h.of_sameStored k1) hp.1 rfl hp.2
+        ⟨fun _ _ hc => (k2 hc).congr ⟨rfl, rfl, rfl⟩, fun _ hs _ => (k3 hs).congr ⟨rfl, rfl, rfl⟩,
+         fun hi => (by rw [i] at hi; cases hi), fun hi => (by rw [i] at hi; cases hi), fun _ => rfl⟩
+    · refine ⟨[{ g with keep := (x.affinePreimage v e den).p.gs.sorted, aux := (x.affinePreimage v e den).p.cs.sorted }],
+        s', k1, h.of_sameStored k1, ?_⟩
+      exact affinePreimage_sim x v e den s' _ { inv := e.coeffs.getD v 0 != 0 } (h.of_sameStored k1) hp.1 rfl hp.2
+        ⟨fun _ _ hc => (k2 hc).congr ⟨rfl, rfl, rfl⟩, fun _ hs _ => (k3 hs).congr ⟨rfl, rfl, rfl⟩, fun _ => rfl,
+         fun _ => rfl, fun hi => (by rw [i] at hi; cases hi)⟩
+
+/-! ## binary methods (`y` another object) -/
+
+inductive BinCall | intersectionAssign | polyHullAssign
+deriving DecidableEq, Repr
+
+def BinCall.full : BinCall → FPoly → FPoly → FPoly × FPoly
+  | .intersectionAssign, x, y => x.intersectionAssign y
+  | .polyHullAssign, x, y => x.polyHullAssign y
+
+def BinCall.abs : BinCall → Gh → Gh → PPLV.PolyStatus.Two → PPLV.PolyStatus.Two
+  | .intersectionAssign, gx, gy, c => PPLV.PolyStatus.intersectionAssign gx gy c
+  | .polyHullAssign, gx, gy, c => PPLV.PolyStatus.polyHullAssign gx gy c
+
+/-- the data facts each comparison needs (see `ProofsStatus4j.lean`, `ProofsStatus4k.lean`) -/
+def BinCall.pre : BinCall → FPoly → FPoly → Prop
+  | .intersectionAssign, x, y =>
+      (x.p.st.gPend = true → x.p.st.cUp = true) ∧ (y.p.st.gPend = true → y.p.st.cUp = true)
+      ∧ y.needCons.p.cs.rows.isEmpty = false
+      ∧ (y.needCons.p.st.cPend = true → y.needCons.p.cs.firstPending < y.needCons.p.cs.rows.length)
+  | .polyHullAssign, x, y =>
+      x.p.dim ≠ 0 ∧ y.p.dim = x.p.dim ∧ y.p.nnc = x.p.nnc
+      ∧ (x.p.st.cPend = true → x.p.st.gUp = true) ∧ (y.p.st.cPend = true → y.p.st.gUp = true)
+      ∧ (x.p.st.empty = true → x.p.cs.sorted = true ∧ x.p.gs.sorted = true)
+      ∧ (y.p.st.cUp = false → y.p.cs.sorted = true) ∧ (y.p.st.gUp = false → y.p.gs.sorted = true)
+      ∧ y.needGens.2.p.gs.rows.isEmpty = false
+      ∧ (y.needGens.2.p.st.gPend = true → y.needGens.2.p.gs.firstPending < y.needGens.2.p.gs.rows.length)
+
+/-- **binary methods**: both objects afterwards are outcomes of the status-protocol method -/
+theorem full_matches_status_model_binary (c : BinCall) (x y : FPoly) (s t : PState) (hx : Sim x s) (hy : Sim y t)
+    (hp : c.pre x y) :
+    ∃ (gx gy : Gh) (s' t' : PState), SameStored s s' ∧ SameStored t t' ∧ Sim x s' ∧ Sim y t' ∧
+      Sim (c.full x y).1 (c.abs gx gy { x := s', y := t', al := false }).x ∧
+      Sim (c.full x y).2 (c.abs gx gy { x := s', y := t', al := false }).y := by
+  cases c
+  case intersectionAssign =>
+    obtain ⟨gx, s', k1, k2⟩ := needConsGhost_ex x s
+    obtain ⟨gy, t', j1, j2⟩ := needConsGhost_ex y t
+    obtain ⟨p1, p2, p3, p4⟩ := hp
+    exact ⟨gx, gy, s', t', k1, j1, hx.of_sameStored k1, hy.of_sameStored j1,
+      intersectionAssign_sim x y s' t' gx gy (hx.of_sameStored k1) (hy.of_sameStored j1) p1 p2 p3 p4
+        ⟨fun _ _ _ => k2, fun _ _ _ => j2⟩⟩
+  case polyHullAssign =>
+    obtain ⟨gx, s', k1, k2⟩ := needGensGhost_ex x s
+    obtain ⟨gy, t', j1, j2⟩ := needGensGhost_ex y t
+    obtain ⟨p1, p2, p3, p4, p5, p6, p7, p8, p9, p10⟩ := hp
+    exact ⟨gx, gy, s', t', k1, j1, hx.of_sameStored k1, hy.of_sameStored j1,
+      polyHullAssign_sim x y s' t' gx gy (hx.of_sameStored k1) (hy.of_sameStored j1) p1 p2 p3 p4 p5 p6 p7 p8 p9 p10
+        ⟨fun _ _ => k2, fun _ _ => j2⟩⟩
 
 end PPLV.PolyFull
